@@ -53,7 +53,7 @@ pub fn roundtrip_relation(
 
 fn roundtrip(ch: &mut Choices, case: &mut Case) -> Result<(), String> {
     let base_year = if ch.chance(85) { 2020 } else { ch.pick(&[1900, 9992, 2096]) };
-    let cfg = Cfg { max_rules: 4, base_year, dense: ch.chance(35), max_day_offset: 400, ..Cfg::default() };
+    let cfg = Cfg { max_rules: 4, base_year, dense: ch.chance(35), max_day_offset: 400, long_pct: 2, ..Cfg::default() };
     let g = gen_case(ch, &cfg)?;
     case.key = g.text.clone();
     label_expr(&g.ast, case);
@@ -100,9 +100,9 @@ pub fn property() -> Property {
             rule: "generated expression e (1-4 rules, full grammar incl. repeats, events with offsets, steps, nth, dated ranges, comments) and its normal form n: to_string() must parse, and the reparsed expression must give the same merged (kind, comment-fragment set) ranges as the original on 10 (resp. 6) expression-aware dates under generated PH/SH calendars; OpeningHours and expression Display agree; non-trivial = printed text differs from the input or the expression has >= 2 rules",
             f: roundtrip,
             text_f: Some(roundtrip_text),
-            cases_quick: 40_000,
+            cases_quick: 120_000,
             cases_thorough: 1_500_000,
-            max_choices: 340,
+            max_choices: 380,
         }],
         extra: None,
         assumptions: vec![
